@@ -338,7 +338,8 @@ class StorageEnv:
         files = ";".join(f"{path_id(p)}=" + "".join("/" if w == "\n" else w for w in self.fs.logical(p))
                          for p in sorted(self.fs.files, key=path_id))
         holder = "-" if self.lock.holder is None else self.lock.holder.name[1:]
-        return f"idx:{idx}|cnt:{self.values['cnt']._v}|wf:{self.values['wf']._v}|lock:{holder}|files:{files}"
+        val = lambda k: self.values[k]._v if k in self.values else "absent"  # a shared counter the code no longer has
+        return f"idx:{idx}|cnt:{val('cnt')}|wf:{val('wf')}|lock:{holder}|files:{files}"
 
     def run(self, chooser):
         schedule = []
